@@ -177,7 +177,7 @@ pub fn history_op(op: usize, rng: &mut impl RngCore) -> &'static str {
 /// Histories followed by probes, all in this process; `virgin` maps probe id -> digest obtained in a fresh process
 pub fn histories(ctx: &Ctx, rep: &mut Report, virgin: &dyn Fn(usize) -> Option<String>) {
     let leg = if <P as Gx>::IS_FM { "fm-history" } else { "ris-history" };
-    let nh = if ctx.thorough() { 400 } else { 48 };
+    let nh = if ctx.thorough() { 3000 } else { 48 };
     let probes = if ctx.thorough() { 8 } else { 4 };
     let mut baseline: HashMap<usize, String> = HashMap::new();
     for hidx in 0..nh {
